@@ -107,6 +107,19 @@ class Expr(metaclass=UFLType):
         """Initialise."""
         self._hash = None
 
+    def __getstate__(self):
+        """Get the state for pickling, without the cached hash.
+
+        Hashes are built from hashes of strings, which differ between
+        processes: a hash cached in one process must not travel to another.
+        """
+        state = object.__getstate__(self)
+        if isinstance(state, tuple) and isinstance(state[1], dict) and state[1].get("_hash") is not None:
+            state = (state[0], {**state[1], "_hash": None})
+        elif isinstance(state, dict) and state.get("_hash") is not None:
+            state = {**state, "_hash": None}
+        return state
+
     # This shows the principal behaviour of the hash function attached
     # in ufl_type:
     # def __hash__(self):
